@@ -28,6 +28,8 @@ class Wire:
         # multiple wires can be at the same spot; this list holds other
         # coincident wires
         self.coincidents: Set[Wire] = set()
+        # the same wires in the order they were added (reproducible iteration)
+        self.ordered_coincidents: List[Wire] = []
 
     @property
     def length(self) -> float:
@@ -54,6 +56,9 @@ class Wire:
     def add_coincident(self, wire):
         """Adds a reference to a coincident wire, if it's aligned"""
         if self.is_coincident(wire):
+            if wire not in self.coincidents:
+                self.ordered_coincidents.append(wire)
+
             self.coincidents.add(wire)
 
     def add_chop(self, chop: Chop) -> None:
